@@ -76,6 +76,26 @@ register("TEMP_SUFFIX", "src/temp_file.rs", r'pub fn temp_path_for\(dest: &Path\
 register("TEMP_CALLSITE", "src/transport/local.rs", r"let temp_dest = crate::temp_file::temp_path_for\(&dest\);\s*let temp_guard = TempFileGuard::new\(&temp_dest\);()", 1, "Z", ["C05", "C09"])
 
 
+# ---- C13: shape of the hard-link hand-off (Model/Hardlink.v, strict = true)
+# a waiter creates and enables its Notified future, THEN looks at the map again, and awaits only if the map still holds the
+# very notice it registered with
+register("HL_REGISTER_THEN_RECHECK", "src/sync/transfer.rs",
+         r"let notified = notify\.notified\(\);\s*tokio::pin!\(notified\);\s*notified\.as_mut\(\)\.enable\(\);\s*(?://[^\n]*\s*)*"
+         r"let still_in_progress = \{\s*let map = self\.hardlink_map\.lock\(\)\.unwrap\(\);\s*"
+         r"matches!\(map\.get\(&inode\), Some\(InodeState::InProgress\(current\)\) if Arc::ptr_eq\(current, &notify\)\)\s*\};\s*"
+         r"if still_in_progress \{\s*notified\.await;\s*\}\s*(?://[^\n]*\s*)*continue;()", 1, "Z", ["C13"])
+# claim: under one lock, re-check and insert InProgress with a NEW notice
+register("HL_CLAIM_DOUBLE_CHECK", "src/sync/transfer.rs",
+         r"let notify = Arc::new\(Notify::new\(\)\);\s*\{\s*let mut map = self\.hardlink_map\.lock\(\)\.unwrap\(\);\s*(?://[^\n]*\s*)*"
+         r"if map\.contains_key\(&inode\) \{\s*continue;[^\n]*\s*\}\s*map\.insert\(inode, InodeState::InProgress\(Arc::clone\(&notify\)\)\);\s*\}()", 1, "Z", ["C13"])
+# failed copy: remove the inode, wake ALL waiters, return the error
+register("HL_FAIL_RELEASE_NOTIFY", "src/sync/transfer.rs",
+         r"Err\(e\) => \{\s*(?://[^\n]*\s*)*\{\s*let mut map = self\.hardlink_map\.lock\(\)\.unwrap\(\);\s*map\.remove\(&inode\);\s*\}\s*"
+         r"notify\.notify_waiters\(\);\s*return Err\(e\);\s*\}()", 1, "Z", ["C13"])
+# completed copy: record Completed, wake ALL waiters
+register("HL_DONE_NOTIFY", "src/sync/transfer.rs",
+         r"map\.insert\(\s*inode,\s*InodeState::Completed\(dest_path\.to_path_buf\(\)\),\s*\);\s*\}\s*notify\.notify_waiters\(\);\s*(?://[^\n]*\s*)*return Ok\(Some\(result\)\);()", 1, "Z", ["C13"])
+
 # ---- C20: watch loop
 register("WATCH_TICK_MS", "src/sync/watch.rs", r"_ = tokio::time::sleep\(Duration::from_millis\(([0-9]+)\)\) =>", 10, "Z", ["C20"])
 register("WATCH_RECV_MS", "src/sync/watch.rs", r"match rx\.recv_timeout\(Duration::from_millis\(([0-9]+)\)\)", 100, "Z", ["C20"])
